@@ -367,6 +367,24 @@ def judge(sc, r, res, desc):
                          'remaining_executions %s -> %s' % (
                              b['remaining_executions'],
                              a['remaining_executions']))
+    # an occurrence is consumed (advanced past / trigger deleted) only when
+    # it is due on the service clock
+    for adv in advances:
+        ev = [e for e in w.rec.events if e['seq'] == adv['seq']][0]
+        try:
+            occ_t = boot.CLOCK.rel(datetime.datetime.fromisoformat(
+                adv['occ']))
+        except Exception:
+            continue
+        res['monitor_evaluations']['due-check'] = \
+            res['monitor_evaluations'].get('due-check', 0) + 1
+        if ev.get('vt') is not None and occ_t > ev['vt'] + 1e-6:
+            viol('fired-before-due',
+                 'occurrence %s of trigger %s was consumed (%s) by %s at '
+                 't=%s, before it was due (t=%s): an occurrence that had '
+                 'already been taken was taken again through the next one' % (
+                     adv['occ'], adv['tid'], adv['kind'], adv['label'],
+                     ev['vt'], occ_t))
     fires = [f for f in w.fires if f['method'] == 'start_workflow']
     by_trigger = {}
     for f in fires:
